@@ -812,6 +812,33 @@ def c03_dormant(ctx):
         out.append(bad(R, key, 'jobs run while thread.busy is held: every scheduling call blocks behind a running job', loc=run.loc, fn=body.name))
     else:
         out.append(ok(R, key, 'jobs run after the busy critical section', fn=body.name))
+    # the flag stays between the two parties of the handshake: the thread body only ever locks it - it is not handed to another object
+    # (a guard that clears it while unwinding, a helper thread, a registry), whose writes would not be tied to the fetch
+    key = 'thread-body|busy-flag-confined'
+
+    def _flagty(ty_):
+        t_ = clean_ty(ty_).replace('std::sync::poison::mutex::', '').replace('alloc::sync::', '').strip()
+        return t_ in ('Arc<Mutex<bool>>',)
+    escapes = []
+    for k2 in [body] + [c for c in _children(ctx, sd.name) if c.parent == body.name]:
+        for bb2, b2 in enumerate(k2.blocks):
+            if b2['cleanup']:
+                continue
+            for s2 in b2['stmts']:
+                if s2['k'] == 'assign' and s2['rv']['k'] == 'agg' and any(o_['k'] != 'const' and _flagty(o_['pl']['ty']) for o_ in s2['rv'].get('ops', [])):
+                    escapes.append((k2, bb2, 'stored in a %s' % (str(s2['rv'].get('adt') or s2['rv'].get('def') or s2['rv'].get('ak')).split('::')[-1])))
+            t2 = b2['term']
+            if t2 and t2['k'] == 'call':
+                nm2 = t2['func'].get('fn') or ''
+                for a2 in t2['args']:
+                    if a2['k'] != 'const' and _flagty(a2['pl']['ty']) and not nm2.endswith(('mem::drop',)):
+                        escapes.append((k2, bb2, 'passed by value to %s' % nm2.split('::')[-1]))
+    if escapes:
+        k2, bb2, how = escapes[0]
+        out.append(bad(R, key, 'the busy flag of the running thread is %s: something other than the fetch section of the thread body can now change it (e.g. clear it while the thread is dying), '
+                       'and the scheduler hands work to a thread that will never run it' % how, loc=k2.loc(bb2), fn=k2.name))
+    else:
+        out.append(ok(R, key, 'the thread body only locks its busy flag; the flag is not handed to any other object', fn=body.name))
     # busy = false only on the None edge, within the same region as the fetch
     writes = [(bb, i) for (bb, i, v) in _deref_bool_writes(ctx, body, 'thread.busy') if str(v) == '0']
     none_edge = None
